@@ -4,7 +4,7 @@
    harness/props/c02.py; the theorems below characterise where name binding agrees.                          *)
 From Coq Require Import List NArith Bool.
 From TatsuV Require Import Base.PyStr Engine.Value Engine.Syntax Engine.Input Engine.Engine Engine.Gen Engine.Calls
-     Engine.GenProof.
+     Engine.GenProof Engine.GenEquiv.
 Import ListNotations.
 
 (* in the fragment "the named expression appends exactly one value" (token, pattern, constant, any-char, {},
@@ -47,3 +47,27 @@ Theorem C02_gen_equiv_refuted :
      w_generated = Ok (VDict [([110%N], VStr [98%N])]) f2).
 Proof. exact generated_differs_outside_fragment. Qed.
 Print Assumptions C02_gen_equiv_refuted.
+
+(* WHOLE-GRAMMAR EQUIVALENCE on the fragment [genok]: every name / override is bound over an expression that appends exactly
+   one value (token, pattern, constant, any-char, {}, rule call, any repetition or join, groups and choices of those), options
+   of choices and optionals define no names, and there is no list override.  For EVERY text, regex oracle, configuration
+   (memoization, cache capacity, pruning, left recursion, parseinfo, keywords), semantic-action oracle and fuel, the generated
+   parser and the model interpreter return the same result - value, final frame, outcome class, exception - and leave the same
+   engine state (memo cache, seeds, body log).  Outside the fragment they differ (C02_generated_differs_outside_fragment): that
+   is finding D2a/D2b, not a gap of the proof. *)
+Theorem C02_generated_parser_equals_model :
+  forall text re_at isalnum isalpha lower upper ic unsafe rules ec act lineat,
+  (forall r rl, get_rule rules r = Some rl -> genok (r_exp rl) = true) ->
+  forall n start,
+  genparse_with text re_at isalnum isalpha lower upper ic unsafe rules ec act lineat n start
+  = parse_with text re_at isalnum isalpha lower upper ic unsafe rules ec act lineat n start.
+Proof. exact genparse_equals_parse. Qed.
+Print Assumptions C02_generated_parser_equals_model.
+
+(* the fragment holds real grammars: names over choices and joins, optionals, closures, rule calls *)
+Example C02_fragment_example :
+  genok (Seq [Named false [110%N] (Choice [Leaf (LTok [97%N]); Leaf (LTok [98%N])]);
+              Opt (Leaf (LTok [99%N]));
+              Named true [109%N] (Rep true (Some (Leaf (LTok [44%N]))) false (Call 1));
+              Choice [Call 1; Leaf (LPat 0)]]) = true.
+Proof. exact genok_example. Qed.
